@@ -2,8 +2,8 @@
 
 The REAL LocalServer.start loop / dataset.Manager / algorithms.lottery / disk.Disk bodies are driven by
 generated op lists (harness/shm_common.py): allocate / client write / finish-write / get / finish-read /
-purge from any number of clients, interleaved with the two halves (io, callback) of every page-out and
-page-in job, successful or failed.
+purge from any number of clients, interleaved with the steps of every page-out job (attach+write, unlink, callback) and
+page-in job (create+read, callback), successful or failed.
 
 * oracle (after EVERY op, on the real Manager): free_space == capacity - sum(size of datasets whose status is
   created/in_memory/paging_out/paged_in); that sum <= capacity; FreeSpaceResponse over the protocol reports the same
@@ -24,7 +24,8 @@ TRUSTED = [
     "key string -> number map (injective per history); shmid handed out by the server is checked to be a function of the key and collision free per history",
 ]
 ASSUMPTIONS = [
-    "atomicity: a request handler and each half of a disk job (body up to the callback; the callback) run without interleaving with each other "
+    "atomicity: a request handler and each step of a disk job (page-out: attach+write the file / shm.unlink / callback; page-in: body / callback) run "
+    "without interleaving with each other; the real page-out body runs in a helper thread that the harness parks just before its shm.unlink "
     "(CPython 3.12 switches threads only at calls/back-edges; the counters are updated by single += statements); every order of these steps is covered",
     "the md5-derived shmid is injective on the keys in use (model: shmid = key)",
     "sizes arrive through the protocol as unsigned integers; capacity >= 0",
@@ -55,7 +56,7 @@ class Watch:
         self.stats["max_resident"] = max(self.stats["max_resident"], total)
 
         def bad(sig, what):
-            if any(e[0] == "orphan-pageout-success" for e in d.events):
+            if S.readd_evidence(d):
                 sig = S_or(sig)
             self.bad.append((sig, f"op {i} {op}: {what}", i))
 
@@ -111,13 +112,13 @@ def evaluate(env, cap, ops):
     bad = list(w.bad)
     if crash:
         total = S.resident_total(d.m)
-        orphan = any(e[0] == "orphan-pageout-success" for e in d.events)
+        orphan = S.readd_evidence(d)
         if d.m.free_space != cap - total or total > cap:
             bad.append((SIG_READD if orphan else "free-space-accounting",
                         f"op {crash[2]} {ops[crash[2]] if crash[2] < len(ops) else ''}: free_space={d.m.free_space}, resident total {total}, capacity {cap} "
                         f"(then {crash[0]} left the serve loop); datasets {S.snapshot(d.m)}", crash[2]))
         sig = "server-crash"
-        if any(e[0] == "orphan-pageout-success" for e in d.events):
+        if S.readd_evidence(d):
             sig = SIG_READD
         bad.append((sig, f"op {crash[2]}: {crash[0]} left LocalServer.start ({crash[1]})", crash[2]))
     return d, obs, crash, bad, w
@@ -126,25 +127,30 @@ def evaluate(env, cap, ops):
 # ----------------------------------------------------------------------------- streams
 def corpus():
     readd = (10, [["add", "K", 6, 10], ["write", "K", "010203040506"], ["close", "K", None], ["add", "L", 6, 20], ["purge", "K"],
-                  ["add", "K", 6, 30], ["write", "K", "0a0b0c0d0e0f"], ["io", 0, False], ["cb", 0], ["add", "M", 10, 40], ["rseg", "K"]])
+                  ["add", "K", 6, 30], ["write", "K", "0a0b0c0d0e0f"], ["io", 0, False], ["unlink", 0], ["cb", 0], ["add", "M", 10, 40], ["rseg", "K"]])
     leak = (4, [["add", "A", 4, 10], ["add", "B", 2, 20], ["add", "B", 1, 21], ["write", "A", "01020304"], ["close", "A", None],
-                ["add", "B", 2, 30], ["io", 0, False], ["cb", 0], ["add", "B", 2, 40]])
+                ["add", "B", 2, 30], ["io", 0, False], ["unlink", 0], ["cb", 0], ["add", "B", 2, 40]])
     test_shm = (4, [["add", "k1", 2, 1], ["write", "k1", "0102"], ["close", "k1", None], ["add", "k2", 2, 2], ["write", "k2", "0304"], ["close", "k2", None],
-                    ["add", "k3", 2, 3], ["io", 0, False], ["cb", 0], ["add", "k3", 2, 4], ["get", "k1", 5, [1]], ["io", 1, False], ["cb", 1],
+                    ["add", "k3", 2, 3], ["io", 0, False], ["unlink", 0], ["cb", 0], ["add", "k3", 2, 4], ["get", "k1", 5, [1]], ["io", 1, False], ["unlink", 1], ["cb", 1],
                     ["get", "k1", 6, [1]], ["io", 2, False], ["cb", 2], ["get", "k1", 7, [1]], ["rseg", "k1"], ["close", "k1", 1]])
-    failed = (4, [["add", "a", 3, 1], ["write", "a", "010203"], ["close", "a", None], ["add", "b", 3, 2], ["io", 0, True], ["cb", 0], ["add", "b", 3, 3],
+    failed = (4, [["add", "a", 3, 1], ["write", "a", "010203"], ["close", "a", None], ["add", "b", 3, 2], ["io", 0, True], ["unlink", 0], ["cb", 0], ["add", "b", 3, 3],
                   ["get", "a", 4, [1]], ["rseg", "a"]])
     purge_race = (4, [["add", "a", 3, 1], ["write", "a", "010203"], ["close", "a", None], ["add", "b", 3, 2], ["purge", "a"], ["io", 0, False],
-                      ["add", "a", 2, 3], ["cb", 0], ["add", "b", 2, 4], ["add", "c", 1, 5]])
-    return [readd, leak, test_shm, failed, purge_race]
+                      ["add", "a", 2, 3], ["unlink", 0], ["cb", 0], ["add", "b", 2, 4], ["add", "c", 1, 5]])
+    # a purge between the two halves of the page-out body: the unlink must fail and the job must not credit the space again
+    midpurge = (10, [["add", "k1", 6, 1], ["write", "k1", "010203040506"], ["close", "k1", None], ["add", "k2", 6, 2], ["io", 0, False], ["purge", "k1"],
+                     ["unlink", 0], ["cb", 0], ["add", "k3", 8, 3], ["add", "k4", 8, 4]])
+    rewrite = (3, [["alloc", "k1", "0102", 4, 0], ["alloc", "k2", "0304", 4, 0], ["read", "k1", 4, 0], ["purge", "k1"], ["alloc", "k1", "0a0b", 4, 0],
+                   ["read", "k2", 4, 0], ["read", "k1", 4, 0]])
+    return [readd, leak, test_shm, failed, purge_race, midpurge, rewrite]
 
 
 def small_scope(maxlen):
     """every op list of length <= maxlen over two keys from a fixed alphabet (capacity 3), with a draining tail"""
     A, B = "A", "B"
     alpha = [["add", A, 2], ["add", B, 2], ["write", A, "0101"], ["close", A, None], ["get", A], ["purge", A],
-             ["io", 0, False], ["cb", 0], ["io", 1, False], ["cb", 1]]
-    tail = [["io", 0, False], ["cb", 0], ["io", 1, False], ["cb", 1], ["add", B, 2], ["get", A], ["rseg", A]]
+             ["io", 0, False], ["unlink", 0], ["cb", 0], ["io", 1, False], ["cb", 1]]
+    tail = [["drain"], ["add", B, 2], ["get", A], ["rseg", A]]
     for n in range(maxlen + 1):
         for mid in itertools.product(alpha, repeat=n):
             ops, t, rd = [], 1, 1
@@ -183,6 +189,12 @@ def run(ctx, res):
     rng = ctx.sub_rng("malformed")
     for _ in range(ctx.n(200, 4000)):
         streams.append(("malformed",) + S.gen_history(rng, malformed=True))
+    rng = ctx.sub_rng("midpurge")
+    for _ in range(ctx.n(400, 8000)):
+        streams.append(("midpurge",) + S.midpurge_history(rng))
+    rng = ctx.sub_rng("rewrite")
+    for _ in range(ctx.n(100, 2000)):
+        streams.append(("rewrite",) + S.rewrite_history(rng))
     for c, o in small_scope(ctx.n(3, 4)):
         streams.append(("small-scope", c, o))
     terms, metas = [], []
@@ -191,7 +203,7 @@ def run(ctx, res):
             d, obs, crash, bad, w = evaluate(env, cap, ops)
             res.evaluations += 1
             res.count(f"stream:{kind}")
-            case = {"capacity": cap, "ops": ops, "stream": kind}
+            case = {"capacity": cap, "ops": ops, "stream": kind}   # ops: macros are expanded in place by the run
             if nontrivial(obs):
                 res.nontrivial_keys.add(S.hist_key(cap, ops))
             if kind != "small-scope":
@@ -220,7 +232,7 @@ def run(ctx, res):
         wcap, wops = corpus()[0]
         d, obs, crash, bad, w = evaluate(env, wcap, wops)
         res.evaluations += 1
-        if not (any(e[0] == "orphan-pageout-success" for e in d.events) and any(b[0] == SIG_READD for b in bad)):
+        if not (S.readd_evidence(d) and any(b[0] == SIG_READD for b in bad)):
             res.disagree("the witness of C08_accounting_refuted (readd-during-pageout) no longer breaks the accounting on the implementation: "
                          "the model (and the _partial/_refuted split) is out of date", {"capacity": wcap, "ops": wops, "observations": obs})
     results, logs = coq_results("C08", S.HEADER, terms, "check_case", tag="hist", shard=250)
@@ -241,7 +253,7 @@ def search(ctx, res):
     def many():
         rng = ctx.sub_rng("search")
         for i in range(8000):
-            yield S.pressure_history(rng) if i % 2 else S.gen_history(rng, malformed=(i % 8 == 0))
+            yield [S.pressure_history, S.midpurge_history, S.gen_history, S.rewrite_history][i % 4](rng)
     with S.patched() as env:
         for cap, ops in itertools.chain(first, corpus(), many(), small_scope(4)):
             d, obs, crash, bad, w = evaluate(env, cap, ops)
